@@ -437,3 +437,10 @@ PROPS["C15"]["rule"] += " Stream notifier (shared with C13/C14), judged here on 
 # C20's "configured extras" clause: what Configure hands a module as extras is what was configured (N conf, ex=)
 PROPS["C20"]["streams"].append(dict(_NOTIFIER_STREAM, keys={"ex"}))
 PROPS["C20"]["rule"] += " Stream notifier (shared with C13/C14), judged here on `ex`: the REAL Coordinator.Configure on a notifier section whose modules have extras containing `$`, `${…}` and `%`; the extras each module's templates will be given must be the configured ones."
+
+# The HTTP streams build their handler through the whole configuration phase of Start where that is possible
+for _pid in ("C16", "C17", "C18", "C04", "C05"):
+    if any(st.get("name") in ("http", "confhttp") for st in PROPS[_pid]["streams"]):
+        PROPS[_pid]["rule"] += (" The handler requests are sent to is what the HTTP server's listener serves after the WHOLE configuration phase of Start (hook: newCoordinators + configureCoordinators, "
+                                "every coordinator's real Configure in Start's order; defaults they set are merged into the model's configuration) when the configuration has no dotted keys and no other "
+                                "coordinator refuses it; otherwise after the HTTP server's own Configure alone.")
